@@ -7,6 +7,7 @@ in/out-of-gamut targets.  Oracle: vertex enumeration of the set of best-fit inte
 at the requested total), convex minimum over it by candidate + certificate; exact recomputation of the variances.
 """
 
+import copy
 import itertools
 
 import numpy as np
@@ -116,7 +117,9 @@ def run_unit(unit, rec):
         adm.append(float(tot.min() + 0.4 * (tot.max() - tot.min())))
     adm = np.array(adm)
     P_all = P
-    for L1name, L1 in (("none", None), ("per-sample", adm), ("scalar", float(adm[0])), ("per-sample/batch2", adm)):
+    # per-sample receptor weights registered with the targets (not those given to the constructor): strongly non-uniform, different per row
+    Wreg = np.array([np.roll(np.array([3.0, 0.4, 1.5, 0.6, 2.0][:m]), k) for k in range(len(T))])
+    for L1name, L1 in (("none", None), ("per-sample", adm), ("scalar", float(adm[0])), ("per-sample/batch2", adm), ("none/registered-weights", None)):
         P = P_all if L1name != "scalar" else P_all[:1]
         T_run = T if L1name != "scalar" else T[:1]
         sig = dict(base, L1=L1name)
@@ -133,8 +136,16 @@ def run_unit(unit, rec):
             # accurate first stage: with the default first-order solver the attainable error of the padded batch is only
             # known to ~1e-4, the same size as l2_eps, which makes the second stage marginally infeasible now and then
             kwargs["solver"] = "CLARABEL"
+        wreg = L1name.endswith("registered-weights")
         try:
-            X, Bp, Bv = est.minimize_variance(P, **kwargs)
+            if wreg:
+                kwargs["solver"] = "CLARABEL"
+                est_w = copy.deepcopy(est)
+                est_w.register_targets(P, Wreg)
+                est_w.minimize_variance(**kwargs)
+                X, Bp, Bv = est_w.X, est_w.B, est_w.Bvar
+            else:
+                X, Bp, Bv = est.minimize_variance(P, **kwargs)
         except Exception as e:  # noqa
             _v(rec, "a", dict(sig, **exc_sig(e)), "minimize_variance raised %r" % (e,), case,
                script=B.script_est(spec) + "P = np.array(%r)\nprint(est.minimize_variance(P%s))\n" % (P.tolist(), "" if L1 is None else ", L1=%r" % (np.asarray(L1).tolist(),)))
@@ -150,7 +161,13 @@ def run_unit(unit, rec):
             _v(rec, "f", dict(sig, what="prediction"), "returned prediction is not the model's capture of the returned intensities", case)
         rec.trans()
         try:
-            X0, _ = est.fit(P)
+            if wreg:
+                est_w0 = copy.deepcopy(est)
+                est_w0.register_targets(P, Wreg)
+                est_w0.fit(solver="CLARABEL")
+                X0 = est_w0.X
+            else:
+                X0, _ = est.fit(P)
             X0 = np.asarray(X0, dtype=float)
         except Exception:  # noqa
             X0 = None
@@ -161,13 +178,14 @@ def run_unit(unit, rec):
             eps_row = Eps_model.sum(0)
             fobj = lambda z: float(np.sum(eps_row * z * z))  # noqa
             gobj = lambda z: 2 * eps_row * z  # noqa
-            opt, xb, _ = O.box_lsq_bounds(Abar, t, lo, hi, c0=c0)
-            err = float(np.linalg.norm(Abar @ x + c0 - t))
+            w_i = Wreg[idx] if wreg else None
+            opt, xb, _ = O.box_lsq_bounds(Abar, t, lo, hi, c0=c0, w=w_i)
+            err = float(np.linalg.norm((Abar @ x + c0 - t) * (1.0 if w_i is None else w_i)))
             bad = None
             l1_i = None if L1 is None else float(np.broadcast_to(L1, (len(T_run),))[idx])
             if np.any(x < lo - 0.01 * rng_ - 1e-9) or np.any(x > hi + 0.01 * rng_ + 1e-9):
                 bad = ("a", "returned intensities violate the bounds")
-            elif l1_i is None and err > opt + 1e-4 + 2e-2:
+            elif l1_i is None and err > opt + 1e-4 + (2e-3 if wreg else 2e-2):
                 bad = ("b", "capture error %.4g exceeds the best achievable error %.4g by more than the tolerance" % (err, opt))
             elif l1_i is not None and abs(np.sum(x) - l1_i) > 1e-2 + 1e-3:
                 bad = ("c", "total intensity %.5g does not match the requested %.5g within l1_eps" % (np.sum(x), l1_i))
@@ -197,7 +215,8 @@ def run_unit(unit, rec):
             rec.outcome("%s/%s" % (kind, "ok" if bad is None else "bad"))
             if bad:
                 _v(rec, bad[0], dict(s2, what=bad[1][:40]), bad[1], c2, observed=dict(X=x, error=err), expected=dict(best_fit=xb, best_error=opt, target=t),
-                   script=B.script_est(spec) + "P = np.array([%r])\nprint(est.minimize_variance(P%s))\n" % (t.tolist(), "" if l1_i is None else ", L1=%r" % l1_i))
+                   script=B.script_est(spec) + (("P = np.array([%r])\nW = np.array([%r])\nest.register_targets(P, W)\nest.minimize_variance(solver='CLARABEL')\nprint(est.X, est.B)\n" % (t.tolist(), Wreg[idx].tolist())) if wreg else
+                                                ("P = np.array([%r])\nprint(est.minimize_variance(P%s))\n" % (t.tolist(), "" if l1_i is None else ", L1=%r" % l1_i))))
     if var == "default":
         # the module-level function with Epsilon=None must use the same default (squared transformed capture matrix)
         from dreye.api.optimize.lsq_linear import lsq_linear_minimize
